@@ -13,6 +13,10 @@ SUP = ["vp_rt.c", "valloc.c", "memloops.c", "slist_ref.c", "szvp_ref.c", "asvp_r
        "vsock.c", "world.c"]
 DEF = ["-DCARES_VERIF_READ_WINDOW=16", "-DVP_REALLOC_SIZES=32,64", "-DVP_REALLOC_ARRAYCOPY"]
 
+import os, sys
+sys.path.insert(0, os.path.join(os.path.dirname(os.path.abspath(__file__)), "..", "machine"))
+import mjobs
+
 def jobs(tier, seed):
     J = []
     J.append(dict(name="read_frames", harness="read_frames.c", defines=DEF + ["-DTCP=1"], real=LIB, support=SUP, unwind=34,
@@ -50,4 +54,6 @@ def jobs(tier, seed):
                       bound="ares_conn_flush from an ARBITRARY output buffer: 0..2 queued frames, payload %s bytes symbolic, %s"
                             % ("0..3" if tcp else "1..3", "cursor anywhere in the first frame; socket accepts ANY 1..len, "
                                "would-block or reset" if tcp else "datagram all-or-nothing, would-block or reset")))
+    # the truncation rule (TC on UDP => retried over TCP unless IGNTC) lives in process_answer: same jobs as C05
+    J += mjobs.answer_jobs(tier, owner=False)
     return J
